@@ -370,6 +370,9 @@ v('C04', 'fire', 'error_model.py', 'Phi = 0.5 * (Fi[1:] + Fi[:-1]) * dt.reshape(
 v('C04', 'fire', 'error_model.py', 'accel_error = util.mv_prod(Fia, accel_error)', 'accel_error = util.mv_prod(Fig, accel_error)', 'propagation: accelerometer error through the gyro coupling')
 v('C04', 'fire', 'error_model.py', 'x[i + 1] = Phi[i].dot(x[i]) + delta_sensor[i] * dt[i]', 'x[i + 1] = Phi[i].dot(x[i]) + delta_sensor[i]', 'propagation: sensor term not multiplied by the step')
 E_ = 'error_model.py'
+_PD = '        result[np.ix_(samples, cls.DRPH, cls.PHI)] = _phi_to_delta_rph(\n            trajectory[RPH_COLS])\n'
+v('C17 C05', 'fire', E_, _PD, '        rph = trajectory[RPH_COLS].to_numpy(dtype=float, copy=True)\n        rph[:, 1] = np.clip(rph[:, 1], -85.0, 85.0)\n        result[np.ix_(samples, cls.DRPH, cls.PHI)] = _phi_to_delta_rph(rph)\n', 'seeded C17 round 5: pitch clamped to +-85 deg before the Euler-error block')
+v('C17 C05', 'silent', E_, _PD, '        rph = trajectory[RPH_COLS].to_numpy(dtype=float, copy=True)\n        rph[:, 1] = np.clip(rph[:, 1], -90.0, 90.0)\n        result[np.ix_(samples, cls.DRPH, cls.PHI)] = _phi_to_delta_rph(rph)\n', 'a guard that covers the whole domain of pitch changes nothing')
 v('C04', 'fire', E_, 'for i in range(n_samples - 1):', 'for i in range(n_samples - 2):', 'survey: last interval never propagated')
 v('C04', 'fire', E_, 'n_samples = Fi.shape[0]', 'n_samples = Fi.shape[1]', 'survey: row count taken from the state axis')
 v('C04', 'silent', E_, 'for i in range(n_samples - 1):', 'for i in range(len(dt)):')
